@@ -666,7 +666,7 @@ class NpModule(object):
         self.I = I
         t = self.table = {}
         for name, op in _UF2.items():
-            t[name] = ip.Builtin('np.' + name, self._mk2(op))
+            t[name] = ip.Builtin('np.' + name, self._mk2(op, name))
         for name, op in _UF1.items():
             t[name] = ip.Builtin('np.' + name, self._mk1(op))
         for n in ('float16', 'float32', 'float64', 'float128', 'complex64', 'complex128', 'complex256', 'int8', 'int16', 'int32', 'int64',
@@ -696,13 +696,18 @@ class NpModule(object):
             return self.table[name]
         return ip.ExtAttr('numpy', name)
 
-    def _mk2(self, op):
+    def _mk2(self, op, npname=None):
         def f(I, fr, args, kwargs):
             out = kwargs.get('out', args[2] if len(args) > 2 else None)
             a, b = args[0], args[1]
             if isinstance(a, carr.CArr) or isinstance(b, carr.CArr) or isinstance(out, carr.CArr):
                 r = carr.ufunc(I, fr, op, [a, b], out=out)
                 return out if out is not None else r
+            if isinstance(a, ip.Obj) and hasattr(a, 'content') and (I.scalar_kind(b) is not None or (isinstance(b, ip.Obj) and hasattr(b, 'content'))):
+                # abstract tensor-like element: np.<ufunc>(element, other) acts like element.ufuncs.<ufunc>(other) (C17)
+                uf = I._getattr(a, 'ufuncs', fr)
+                name = npname or {'pow': 'power'}.get(op, op)
+                return I.call(uf.pv_getattr(I, fr, name), [b], {} if out is None else {'out': out}, fr)
             if not isinstance(a, PArr) and not isinstance(b, PArr):
                 a, b = unwrap(I, fr, a), unwrap(I, fr, b)
             if not isinstance(a, PArr) and not isinstance(b, PArr):
@@ -928,6 +933,9 @@ class NpModule(object):
         return self._mk2('pow')(I, fr, args, kwargs)
 
     def _reduce(self, I, fr, kind, a, extra=()):
+        if isinstance(a, ip.Obj) and hasattr(a, 'content'):
+            # abstract tensor-like element: np.<reduction>(element) reduces the underlying array (C17)
+            return fr.st.reductions.reduce(fr, kind, a.content, extra)
         a = unwrap(I, fr, a)
         if not isinstance(a, PArr):
             raise Unsupported('reduction %s of %r' % (kind, a))
